@@ -177,13 +177,15 @@ Definition do_ik (g : gst) (w : wid) (s : wst) : gst :=
       | None => upd_w g w (fun s => wset_pc s (after_ik o))
       end) w LIk SDone.
 
-(* forgeLogRetry after an idempotency-key conflict: fetchLogWithIK outside any transaction *)
+(* fetchLogWithIK outside any transaction: in forgeLogRetry after an idempotency-key conflict, and (errorOrIKOutcome) after any
+   other failure of a request that carries a key - a concurrent request with the same key may have committed since the first
+   lookup; its log is then the outcome.  When no log is found the failure (kept in w_err) is returned. *)
 Definition do_fetch (g : gst) (w : wid) (s : wst) : gst :=
   let o := w_op s in
   ev (match find_ik g (o_ik o) with
       | Some l => if l_inh l =? o_inh o then upd_w g w (fun s => wset_res s (ROk (l_id l) (l_tx l) true) PDone)
                   else upd_w g w (fun s => wset_res s (RErr EIkInput) PDone)
-      | None => upd_w g w (fun s => wset_res s (RErr EIkConflict) PDone)
+      | None => upd_w g w (fun s => wset_res s (RErr (match w_err s with Some e => e | None => EIkConflict end)) PDone)
       end) w LIk SDone.
 
 (* RevertTransaction: UPDATE transactions SET reverted_at ... WHERE id = ? AND reverted_at IS NULL (row lock; the WHERE is
@@ -354,14 +356,17 @@ Definition do_commit (g : gst) (w : wid) (s : wst) : gst :=
                g_c06 := g_c06 g ++ c6; g_ev := g_ev g |} in
   ev (upd_w g1 w (fun s => wset_res s (ROk lid tid false) PDone)) w LCommit SDone.
 
-(* ROLLBACK, then forgeLog's decision: retry on deadlock / idempotency-key conflict, otherwise return the error *)
+(* ROLLBACK, then forgeLog's decision: retry on deadlock / idempotency-key conflict; otherwise return the error - unless the
+   request carries an idempotency key: then look the key up once more (errorOrIKOutcome) *)
 Definition do_rollback (g : gst) (w : wid) (s : wst) : gst :=
   let g1 := abort g w in
   ev (match w_err s with
       | None => upd_w g1 w (fun s => wset_res s (w_res s) PDone)                 (* idempotency hit *)
       | Some EDeadlock => upd_w g1 w restart
       | Some EIkConflict => if w_retry s then upd_w g1 w (fun s => wset_pc (wset_err s None) PFetch) else upd_w g1 w restart
-      | Some e => upd_w g1 w (fun s => wset_res s (RErr e) PDone)
+      | Some EIkInput => upd_w g1 w (fun s => wset_res s (RErr EIkInput) PDone)          (* from the first lookup: returned as is *)
+      | Some e => if String.eqb (o_ik (w_op s)) "" then upd_w g1 w (fun s => wset_res s (RErr e) PDone)
+                  else upd_w g1 w (fun s => wset_pc s PFetch)                             (* errorOrIKOutcome *)
       end) w LRollback SDone.
 
 Definition step (g : gst) (w : wid) : gst :=
